@@ -420,7 +420,7 @@ class Verifier:
     def verify(self, qual):
         """Returns dict: {'function', 'sha', 'results': {oid: {...}}, 'error': str|None, 'paths': n}"""
         K = self.contracts[qual]
-        fi = self.program.func(qual)
+        fi = self.program.func(getattr(K, "target", None) or qual)
         ctor_cls = None
         if fi is None and self.program.cls(qual.split(".")[-1]) is not None:
             ctor_cls = qual.split(".")[-1]
